@@ -10,6 +10,7 @@
                   start vector (its [dia] still survives from row to row);
    crs constructors (builtin.hpp:76-172): from (ptr,col,val) ranges / row-iterator
                   adapters / copy.
+   adapter::block_matrix / unblock_matrix (amgcl/adapter/block_matrix.hpp).
    A complex-rational Scalar instance (non-trivial adjoint) for the transpose tie.
    Proofs: MatOps2Proofs.v. *)
 From Coq Require Import QArith Qcanon.
@@ -422,6 +423,92 @@ Definition crs_of_adapter (n m : nat) (ptr col : list nat) (val : vec) : crs :=
   mkCrs m (rows_of_ranges n ptr col val).
 Definition crs_copy (A : crs) : crs :=
   crs_of_adapter (nrows A) (ncols A) (flat_ptr A) (flat_col A) (flat_val A).
+
+(* ------------------------------------------------------------------ *)
+(* adapter::block_matrix (amgcl/adapter/block_matrix.hpp:43-170): scalar CRS viewed as a
+   CRS of bs x bs blocks through block_matrix_adapter::row_iterator, copied into
+   crs<static_matrix<V,bs,bs>> by the row-iterator constructor; and unblock_matrix (172-235). *)
+
+Definition blk := list (list S).                   (* bs rows of bs values, row-major *)
+Record bcrs := mkBcrs { bncols : nat; brows : list (list (nat * blk)) }.
+
+Fixpoint set_nth {X} (n : nat) (x : X) (l : list X) : list X :=
+  match l, n with
+  | [], _ => []
+  | _ :: tl, O => x :: tl
+  | y :: tl, Datatypes.S k => y :: set_nth k x tl
+  end.
+
+(* cur_col = min over the non-exhausted rows of (head column / BlockSize) *)
+Definition bm_min (bs : nat) (js : list row) : option nat :=
+  fold_left (fun cur r => match r with [] => cur | e :: _ => upd_cur cur (Nat.div (fst e) bs) end) js None.
+
+(* for(; base[i] && base[i].col() < end; ++base[i]) cur_val(i, col % BlockSize) = value;
+   the block row [vals] starts as zeros (cur_val = math::zero) and entries OVERWRITE *)
+Fixpoint bm_gather_row (bs col_end : nat) (r : row) (vals : list S) : row * list S :=
+  match r with
+  | [] => ([], vals)
+  | (c, v) :: tl =>
+    if Nat.ltb c col_end then bm_gather_row bs col_end tl (set_nth (Nat.modulo c bs) v vals)
+    else ((c, v) :: tl, vals)
+  end.
+Definition bm_gather (bs col_end : nat) (js : list row) : list row * blk :=
+  let g := map (fun r => bm_gather_row bs col_end r (repeat s0 bs)) js in
+  (map fst g, map snd g).
+
+(* the iterator: constructor = first step, operator++ = further steps; fuel = stored entries + 1 *)
+Fixpoint bm_loop (fuel bs : nat) (js : list row) : list (nat * blk) :=
+  match fuel with
+  | O => []
+  | Datatypes.S f =>
+    match bm_min bs js with
+    | None => []
+    | Some cc =>
+      let '(js', b) := bm_gather bs ((cc + 1) * bs) js in
+      (cc, b) :: bm_loop f bs js'
+    end
+  end.
+Definition bm_block_row (bs : nat) (js : list row) : list (nat * blk) :=
+  bm_loop (pw_fuel js) bs js.
+
+(* crs<Block>(adapter::block_matrix<Block>(A)); None = "Matrix size is not divisible by block
+   size!" (bs = 0 is not a static_matrix size: excluded) *)
+Definition block_matrix (A : crs) (bs : nat) : option bcrs :=
+  if Nat.eqb bs 0 then None else
+  let np := Nat.div (nrows A) bs in
+  let mp := Nat.div (ncols A) bs in
+  if negb (Nat.eqb (np * bs) (nrows A)) || negb (Nat.eqb (mp * bs) (ncols A)) then None else
+  Some (mkBcrs mp (map (bm_block_row bs) (groups np bs (rows A)))).
+
+(* unblock_matrix: every stored block contributes all its bs*bs values (zeros included) *)
+Definition unblock_row (bs : nat) (i : nat) (br : list (nat * blk)) : row :=
+  flat_map (fun cb => map (fun j => ((fst cb * bs + j)%nat, nth j (nth i (snd cb) []) s0)) (seq 0 bs)) br.
+Definition unblock_matrix (bs : nat) (B : bcrs) : crs :=
+  mkCrs (bncols B * bs) (flat_map (fun br => map (fun i => unblock_row bs i br) (seq 0 bs)) (brows B)).
+
+(* specification: block (I,J) is stored iff some entry of A is stored in it; its value is the
+   dense bs x bs sub-matrix; block columns increasing *)
+Definition block_has (bs J : nat) (js : list row) : bool :=
+  existsb (fun r => existsb (fun e => Nat.eqb (Nat.div (fst e) bs) J) r) js.
+Definition block_dense (bs J : nat) (js : list row) : blk :=
+  map (fun r => map (fun l => rget r (J * bs + l)) (seq 0 bs)) js.
+Definition block_spec_row (bs mp : nat) (js : list row) : list (nat * blk) :=
+  flat_map (fun J => if block_has bs J js then [(J, block_dense bs J js)] else []) (seq 0 mp).
+Definition block_spec (A : crs) (bs : nat) : bcrs :=
+  let np := Nat.div (nrows A) bs in
+  let mp := Nat.div (ncols A) bs in
+  mkBcrs mp (map (block_spec_row bs mp) (groups np bs (rows A))).
+Definition blk_eqb (a b : blk) : bool :=
+  Nat.eqb (length a) (length b) &&
+  forallb (fun rr => Nat.eqb (length (fst rr)) (length (snd rr)) &&
+                     forallb (fun vv => seqb (fst vv) (snd vv)) (combine (fst rr) (snd rr)))
+          (combine a b).
+Definition bcrs_eqb (A C : bcrs) : bool :=
+  Nat.eqb (bncols A) (bncols C) && Nat.eqb (length (brows A)) (length (brows C)) &&
+  forallb (fun rr => Nat.eqb (length (fst rr)) (length (snd rr)) &&
+                     forallb (fun ee => Nat.eqb (fst (fst ee)) (fst (snd ee)) && blk_eqb (snd (fst ee)) (snd (snd ee)))
+                             (combine (fst rr) (snd rr)))
+          (combine (brows A) (brows C)).
 
 (* ------------------------------------------------------------------ *)
 (* dense comparison helpers for the oracle ops                        *)
